@@ -127,8 +127,10 @@ def judge(R, it, res, lean):
                 R.violation("property_violation", f"{name}: scores agree up to relative 1e-9 under reordering/renaming", f"{ENTRY}: {name}.score",
                             inp, impl_output={"orig": a[name]["score"], "transformed": b[name]["score"]}, oracle="scores differ by more than 1e-9")
                 return
-            top = sorted(set(sa), reverse=True)
-            separated = len(top) == 1 and False or (len(top) > 1 and top[0] - top[1] > 4 * TOL9 * max(1, abs(top[0])))
+            # "the top score is separated from the others": the best and the second-best ENTRY (not distinct value) differ by
+            # more than the tolerance; an exact or near tie at the top may legitimately be broken by float summation order
+            top = sorted(sa, reverse=True)
+            separated = len(top) == 1 or (top[0] - top[1] > 4 * TOL9 * max(1, abs(top[0])))
             if separated:
                 if sorted(sig[x] for x in b[name]["winners"]) != sorted(a[name]["winners"]):
                     R.violation("property_violation", f"{name}: winner sets correspond when the top score is separated", f"{ENTRY}: {name}.scf",
